@@ -194,6 +194,8 @@ def required (client : String) : List String :=
       "atomic/rel->acq", "atomic/rmw-chain->acq", "plain/read-after-write", "plain/write-after-write",
       "plain/write-after-read"]
   | "tripwire" => base ++ ["thread/join", "atomic/rel->acq", "plain/read-after-write"]
+  | "deferred" => base ++ ["thread/join", "mutex/X->X", "mutex/X->S", "mutex/S->X", "mutex/try-ok", "mutex/try-fail-no-edge",
+      "atomic/rel->acq", "plain/read-after-write", "plain/write-after-write", "plain/write-after-read"]
   | _ => base
 
 /-- feed one HB event; `Except` carries the race report -/
